@@ -196,7 +196,18 @@ def merge_states(c, s1, s2):
     s = s1.copy()
     for k in set(s1.env) | set(s2.env):
         if k in s1.env and k in s2.env:
-            m = merge_val(c, s1.env[k], s2.env[k])
+            a_, b_ = s1.env[k], s2.env[k]
+            if (a_ is None) != (b_ is None) and isinstance(a_ if a_ is not None else b_, (IntV, RealV, BoolV)):
+                # assigned on one path only: keep the value, remember on which path it exists (reads are checked against it)
+                fa = s1.scal.get(f'init:{k}')
+                fb = s2.scal.get(f'init:{k}')
+                ia = z3.BoolVal(False) if a_ is None else (fa.t if fa is not None else z3.BoolVal(True))
+                ib = z3.BoolVal(False) if b_ is None else (fb.t if fb is not None else z3.BoolVal(True))
+                s.env[k] = a_ if a_ is not None else b_
+                s1.scal[f'init:{k}'] = BoolV(ia)
+                s2.scal[f'init:{k}'] = BoolV(ib)
+                continue
+            m = merge_val(c, a_, b_)
             if m is None:
                 raise ExtractionError(f'cannot merge local {s1.names.get(k, k)} at join')
             s.env[k] = m
